@@ -15,6 +15,11 @@ import (
 type Files struct {
 	Include map[string]string `json:"include,omitempty"`
 	Exclude map[string]string `json:"exclude,omitempty"`
+
+	// oneLine selects the other spelling of a file with affixes and exactly one entry (see InlineOpts.OneLine)
+	oneLine bool
+	// affixAsEntries reproduces finding F41 (see InlineOpts.AffixAsEntries)
+	affixAsEntries bool
 }
 
 // lookup finds a file the way the statement describes: include directory first, then exclude; with or without .ra.
@@ -73,6 +78,13 @@ func lines(text string) []string {
 type InlineOpts struct {
 	Includes    bool
 	Definitions bool
+	// OneLine writes an include file that has prefixes or suffixes and exactly one plain entry as the single entry
+	// (?:prefix)(?:entry)(?:suffix) instead of a block with markers: the same plain reading, spelt without any marker.
+	OneLine bool
+	// AffixAsEntries is not the reading of the format but that of finding F41: the texts of prefix and suffix lines of
+	// wrapped include files count as entries, so exclusions and replacements apply to them. Used only to decide whether
+	// an observed difference is exactly that finding.
+	AffixAsEntries bool
 }
 
 // expandDefs substitutes {{name}} to a fix point (acyclic graphs only).
@@ -209,20 +221,38 @@ func fileBody(name string, files *Files, depth int, defsOut map[string]string) (
 	if len(prefixes) == 0 && len(suffixes) == 0 {
 		return body, nil
 	}
+	if files.oneLine && len(body) == 1 && !strings.HasPrefix(body[0], "##!") {
+		e := "(?:" + body[0] + ")"
+		for i := len(prefixes) - 1; i >= 0; i-- {
+			e = "(?:" + prefixes[i] + ")" + e
+		}
+		for _, s := range suffixes {
+			e += "(?:" + s + ")"
+		}
+		return []string{e}, nil
+	}
+	// the texts of the prefix and suffix lines are not entries of the file: they carry a private tag until Inline
+	// has finished, so that neither an exclusion nor a replacement nor another line of the same text touches them
+	affixTag := affixTag
+	if files.affixAsEntries {
+		affixTag = ""
+	}
 	out := []string{"##!> assemble"}
 	for _, p := range prefixes {
-		out = append(out, p, "##!=>")
+		out = append(out, affixTag+p, "##!=>")
 	}
 	out = append(out, body...)
 	if len(suffixes) > 0 {
 		out = append(out, "##!=>")
 	}
 	for _, s := range suffixes {
-		out = append(out, s, "##!=>")
+		out = append(out, affixTag+s, "##!=>")
 	}
 	out = append(out, "##!<")
 	return out, nil
 }
+
+const affixTag = "\x01"
 
 func include(line string, files *Files, depth int) ([]string, error) {
 	m := reInclude.FindStringSubmatch(line)
@@ -235,7 +265,7 @@ func include(line string, files *Files, depth int) ([]string, error) {
 		return nil, err
 	}
 	for i, e := range body {
-		if !strings.HasPrefix(e, "##!") {
+		if !strings.HasPrefix(e, "##!") && !strings.HasPrefix(e, affixTag) {
 			body[i] = applyPairs(e, pairs)
 		}
 	}
@@ -273,7 +303,7 @@ func includeExcept(line string, files *Files, depth int) ([]string, error) {
 		for k, v := range defs {
 			seeded += "##!> define " + k + " " + v + "\n"
 		}
-		tmp := &Files{Include: map[string]string{"\x00x": seeded + text}, Exclude: files.Exclude}
+		tmp := &Files{Include: map[string]string{"\x00x": seeded + text}, Exclude: files.Exclude, affixAsEntries: files.affixAsEntries}
 		for k, v := range files.Include {
 			if _, ok := tmp.Include[k]; !ok {
 				tmp.Include[k] = v
@@ -295,19 +325,16 @@ func includeExcept(line string, files *Files, depth int) ([]string, error) {
 			drop[expandDefs(e, xd)] = true
 		}
 	}
-	// a duplicated entry survives once, at the position of its last occurrence
-	last := map[string]int{}
-	for i, e := range body {
-		last[e] = i
-	}
 	var out []string
-	for i, e := range body {
-		if strings.HasPrefix(e, "##!") {
-			// marker and block lines of a wrapped include file are not entries: kept as they are, every one of them
+	for _, e := range body {
+		if strings.HasPrefix(e, "##!") || strings.HasPrefix(e, affixTag) {
+			// marker and block lines of a wrapped include file and the texts of its affix lines are not entries:
+			// kept as they are, every one of them
 			out = append(out, e)
 			continue
 		}
-		if drop[e] || last[e] != i {
+		// (an entry that F lists twice stays at both positions)
+		if drop[e] {
 			continue
 		}
 		out = append(out, applyPairs(e, pairs))
@@ -319,6 +346,9 @@ func includeExcept(line string, files *Files, depth int) ([]string, error) {
 func Inline(program string, files *Files, o InlineOpts) (string, error) {
 	var out []string
 	defs := map[string]string{}
+	if o.OneLine || o.AffixAsEntries {
+		files = &Files{Include: files.Include, Exclude: files.Exclude, oneLine: o.OneLine, affixAsEntries: o.AffixAsEntries}
+	}
 	for _, l := range lines(program) {
 		switch {
 		case o.Definitions && reDefine.MatchString(l):
@@ -342,7 +372,7 @@ func Inline(program string, files *Files, o InlineOpts) (string, error) {
 			out = append(out, l)
 		}
 	}
-	text := strings.Join(out, "\n") + "\n"
+	text := strings.ReplaceAll(strings.Join(out, "\n")+"\n", affixTag, "")
 	if o.Definitions {
 		text = expandDefs(text, defs)
 	}
